@@ -11,5 +11,6 @@ def run(ctx, rep):
     isolation.rule_no_vm_bound_values_on_objects(ctx, rep, "C12-R7")
     recursion.rule_persistent_path_balanced(ctx, rep, "C12-R8")
     isolation.rule_running_interpreter_handed_back(ctx, rep, "C12-R9")
+    isolation.rule_reused_interpreter_reset(ctx, rep, "C12-R10")
     pairing.rule_contextmanager_cleanup(ctx, rep, "C12-R6", where=lambda f: f.module.name in ("context", "vm", "values"), what=" of the runtime")
     rep.undecided += ["agreement with the abstract per-context dictionary model over histories (runtime property)"]
